@@ -88,13 +88,13 @@ def explicit_cpu_list(case):
 # --------------------------------------------------------------------------------------
 # the Hilbert table against an independent transcription
 # --------------------------------------------------------------------------------------
-@unit("C04", "_hilbert3d", targets=[HIL + ":_hilbert3d", HIL + ":_btest"], cases=[{"label": "bit_length<=%d" % (3 if os.environ.get("PYVC_TIER") == "thorough" else 2)}],
+@unit("C04", "_hilbert3d", targets=[HIL + ":_hilbert3d", HIL + ":_btest"], cases=[{"label": "bit_length<=3"}],
       replay=NIO.replay_hilbert)
 def hilbert_table(case):
     from . import ref_hilbert as R
 
     h = M(HIL)
-    maxbl = 3 if os.environ.get("PYVC_TIER") == "thorough" else 2
+    maxbl = 3
     bad = []
     for bl in range(1, maxbl + 1):
         n = 2 ** bl
